@@ -195,6 +195,10 @@ class DebugRender(TypeRender):
         from render import NAME_POOLS, pick
         # ordinary identifiers only (raw identifiers are outside "byte-identical to derive(Debug)")
         self.pool = [None, NAME_POOLS[2], NAME_POOLS[3]][pick([0, 0, 1, 2], idx, 'names')]
+        if not self.has_params():
+            # the #[derive(Debug)] twin is rendered from the same item text: keep it free of educe attributes
+            self.bystander = None
+            self.foreign = False
 
     def has_params(self):
         c = self.cfg
